@@ -25,6 +25,8 @@ def gen(rng):
         elif x < 0.8:
             n = rng.choice([5, 40, 252, 253, 254, 255, 2])
             ops.append(("recv", f"{n};255;0;0;17;2.0", ()))
+        elif x < 0.86:
+            ops.append(("reconnect",))
         elif x < 0.9:
             ops.append(("recv", f"{rng.choice([1, 5, 254])};255;3;0;0;55", ()))
         else:
@@ -32,14 +34,112 @@ def gen(rng):
     return ops
 
 
+def with_persistence():
+    """Ids handed out over several sessions of one Gateway object with a persistence file: a
+    reconnect (also after a final save that failed, or with a file that is older than the
+    registry) must not bring an id back."""
+    import asyncio
+    import os
+    import shutil
+    import tempfile
+
+    from common import Config, Gateway, ScriptedTransport
+
+    fs, n = [], 0
+    base = tempfile.mkdtemp(prefix="amsverif_c11_")
+    loop = asyncio.new_event_loop()
+    for version in (None, "2.2"):
+        for scenario in ("plain", "save-fails", "stale-file", "import-other-file"):
+            n += 1
+            d = os.path.join(base, f"s{n}")
+            os.mkdir(d)
+            path = os.path.join(d, "p.json")
+            tr = ScriptedTransport()
+            gw = Gateway(tr, Config(persistence_file=path))
+            handed: list[str] = []
+
+            async def session(k, after=None):
+                async with gw:
+                    agen = gw.listen()
+                    if version and not gw.protocol_version:
+                        tr.inq.append(f"0;255;3;0;2;{version}")
+                        await agen.__anext__()
+                    for _ in range(k):
+                        tr.writes = []
+                        tr.inq.append("255;255;3;0;3;")
+                        await agen.__anext__()
+                        handed.extend(w.split(";")[5].strip() for w, ok in tr.writes if w.split(";")[4] == "4" and ok)
+                    if after:
+                        await after()
+                    await agen.aclose()
+
+            async def break_dir():
+                # the storage goes away before the final save
+                os.rename(d, d + ".gone")
+
+            async def import_other():
+                other = os.path.join(base, f"other{n}.json")
+                with open(other, "w") as f:
+                    f.write('{"40": {"node_id": 40, "node_type": 17, "protocol_version": "2.0", "children": {}, "sketch_name": "", "sketch_version": "", "battery_level": 0, "heartbeat": 0, "sleeping": false}}')
+                await gw.persistence.load(other)
+                tr.writes = []
+                tr.inq.append("255;255;3;0;3;")
+                agen2 = gw.listen()
+                await agen2.__anext__()
+                handed.extend(w.split(";")[5].strip() for w, ok in tr.writes if w.split(";")[4] == "4" and ok)
+                await agen2.aclose()
+
+            try:
+                if scenario == "plain":
+                    loop.run_until_complete(session(2))
+                    loop.run_until_complete(session(2))
+                elif scenario == "save-fails":
+                    try:
+                        loop.run_until_complete(session(2, break_dir))
+                    except Exception as e:  # noqa: BLE001
+                        if type(e).__name__ != "PersistenceWriteError":
+                            raise
+                    os.rename(d + ".gone", d)
+                    loop.run_until_complete(session(2))
+                elif scenario == "stale-file":
+                    loop.run_until_complete(session(1))
+                    with open(path) as f:
+                        snapshot = f.read()
+                    loop.run_until_complete(session(2))
+                    with open(path, "w") as f:      # a backup from before is restored by the operator
+                        f.write(snapshot)
+                    loop.run_until_complete(session(2))
+                else:
+                    loop.run_until_complete(session(2, import_other))
+                    loop.run_until_complete(session(1))
+            except Exception as e:  # noqa: BLE001
+                fs.append({"kind": "oracle", "sig": "C11:sessions", "desc": f"{scenario} ({version}): {type(e).__name__}: {e}", "case": {"scenario": scenario}})
+                continue
+            if len(set(handed)) != len(handed) or not all(h.isdigit() and 1 <= int(h) <= 254 for h in handed):
+                fs.append({"kind": "oracle", "sig": "C11:repeated-across-sessions",
+                           "desc": f"{scenario} (version {version}): ids handed out over the sessions of one Gateway object: {handed}",
+                           "case": {"scenario": scenario, "version": version, "handed": handed}})
+    loop.close()
+    shutil.rmtree(base, ignore_errors=True)
+    seen = {}
+    for f in fs:
+        seen.setdefault(f["sig"], f)
+    return list(seen.values()), n
+
+
 def run(ctx, model_available=True):
     rng = rng_for(ctx.seed, "C11gen")
     hs = [gen(rng) for _ in range(ctx.budget(700, 12000))]
     # a long run of requests up to exhaustion
     hs.append([("put_node", 240, 17, "2.0", False)] + [("recv", "255;255;3;0;3;", ())] * 18)
-    return run_property(ctx, "C11", histories=hs, n_quick=0, n_thorough=0, oracle=oracle_c11,
-                        model_available=model_available,
-                        rule="registries of every shape class (empty, sparse, dense, near the bound, holding 254/255, restored or presented) followed by id requests interleaved with presentations and write faults; one run to exhaustion")
+    res = run_property(ctx, "C11", histories=hs, n_quick=0, n_thorough=0, oracle=oracle_c11,
+                       model_available=model_available,
+                       rule="registries of every shape class (empty, sparse, dense, near the bound, holding 254/255, restored or presented) followed by id requests interleaved with presentations, write faults and reconnects; one run to exhaustion; sessions of one Gateway object with a persistence file (final save failing, file older than the registry, another file imported)")
+    pf, pn = with_persistence()
+    res["failures"] = pf + res["failures"]
+    res["evaluations"] += pn
+    res["distribution"]["persistence_sessions"] = pn
+    return res
 
 
 def replay(ctx, rp):
